@@ -195,6 +195,9 @@ pub struct Built {
     pub init_len: usize,
     /// rendered tree (after transformations)
     pub tree: Vec<Node>,
+    /// the fragment part rendered as a stand-alone media segment (positions relative to its own
+    /// start, explicit base offsets adjusted); sample offsets in it = truth offset - init_len
+    pub segment: Vec<u8>,
 }
 
 // ------------------------------------------------------------------------------------------
@@ -734,6 +737,19 @@ pub fn build(m: &Movie) -> Built {
         init_len = (pos[last] + top[last].size()) as usize;
     }
     let _ = init_nodes;
+    let mut segment = Vec::new();
+    if !m.frags.is_empty() {
+        let shift = init_len as u64;
+        let pl_seg = Placement { chunk_off: pl.chunk_off.clone(), frag: pl.frag.iter().map(|(a, b)| (a.saturating_sub(shift), b.saturating_sub(shift))).collect() };
+        let (mut top_s, _) = make_tree(m, &pl_seg);
+        apply_xforms(&mut top_s, &m.xforms);
+        let pos_s = top_positions(&top_s);
+        for (i, n) in top_s.iter().enumerate() {
+            if pos_s[i] >= shift {
+                n.render_into(&mut segment);
+            }
+        }
+    }
     // ground truth
     let mut truth: Vec<TrackTruth> = Vec::new();
     let mut frag_first: Vec<u32> = m.tracks.iter().map(|t| t.samples.len() as u32).collect();
@@ -779,7 +795,7 @@ pub fn build(m: &Movie) -> Built {
         let media_duration = t.samples.iter().map(|s| s.dur as u64).sum();
         truth.push(TrackTruth { id: t.id, samples, media_duration });
     }
-    Built { bytes, truth, init_len, tree: top }
+    Built { bytes, truth, init_len, tree: top, segment }
 }
 
 /// expected payload bytes of sample k (0-based, counted across table samples then fragments) of track t
